@@ -22,7 +22,7 @@ COMPLEX_OK = {"mass", "stiff", "coefmass", "xmass", "cten", "divdiv", "curlcurl"
 
 def run(chk):
     quick = chk.tier == "quick"
-    cases = s5.enumerate_formspace(chk)
+    cases = s5.enumerate_formspace(chk, complex_terms=True)
     pool = [c for c in cases if c["term"] in COMPLEX_OK]
     sel = s5.sample_cases(pool, 14 if quick else 150, chk.seed, max_cost=25 if quick else 200)
     cpl = s5.sample_cases([c for c in pool if c["term"] == "cplx"], 4 if quick else 40, chk.seed + 1, max_cost=25 if quick else 200)
